@@ -24,6 +24,10 @@ m = {
  "not_applicable": [],
  "notes": "All checks: ./check <ID> [--tier quick|thorough]; exit 0 held / 1 VIOLATION / 2 inconclusive (never reported as success). Known findings: known_findings.json. See DESIGN.md."
 }
+for l in open(os.path.join(V, "properties.jsonl")):
+    pid = json.loads(l)["id"]
+    if pid not in P:
+        P[pid] = {"claimed": False, "reason": "no check registered for this property at this commit (machinery not built yet); nothing is claimed"}
 for pid in sorted(P):
     v = P[pid]
     if not v.get("claimed"):
